@@ -55,6 +55,26 @@ sys.exit(0)
 '''
 
 
+def _witness(formula, good, what):
+    return '''\
+import sys, warnings; warnings.simplefilter('ignore')
+import numpy as np
+import formulas
+v = np.ravel(np.asarray(formulas.Parser().ast(%r)[1].compile()(), object))[0]
+print(%r, '=', v, '(Excel: %s)')
+if str(v) != %r:
+    print('REPRODUCED: %s'); sys.exit(1)
+sys.exit(0)
+''' % (formula, formula, good, good, what)
+
+
+WITNESSES = [
+    ('C12-floor-ceiling-binary-scaling', _witness('=FLOOR(0.7,0.1)', '0.7', 'FLOOR / CEILING scale in binary floating point')),
+    ('C12-search-without-wildcards', _witness('=SEARCH("b?d","abcd")', '2', 'SEARCH does not honour wildcards')),
+    ('C12-value-of-formatted-text', _witness('=VALUE("1,234")', '1234.0', 'VALUE reads formatted numbers through a date parser')),
+]
+
+
 def run(tier, seed):
     ck = Check('C12', tier, seed)
     import formulas.functions.math as M, formulas.functions.text as TX, formulas.functions.logic as LG, \
@@ -68,6 +88,8 @@ def run(tier, seed):
               'aggregations: elements and typed arguments are boolean selectors over pools (numpy does the arithmetic)')
     ck.out_of_scope('trigonometry / EXP / LN / LOG / SQRT / POWER (libm, no SMT theory)', 'STDEV / VAR families, SUMPRODUCT, XOR / AND / OR over ranges, SWITCH, IFS, TEXTJOIN, VALUE\'s date parser',
                     'numeric text inside referenced ranges (the statement only fixes non-numeric text)', 'CEILING / FLOOR / MOD with fractional arguments', 'MOD')
+    for fid, src_w in WITNESSES:
+        ck.check_known_witness(fid, src_w)
     quick = tier == 'quick'
     T = []
     ds = [-2, 0, 1, 2, 3] if quick else [-2, -1, 0, 1, 2, 3, 4, 5, 6]
